@@ -11,10 +11,13 @@ for f in glob.glob(os.path.join(V, "checks", "registry", "C*.json")):
 props = [json.loads(l) for l in open(os.path.join(V, "properties.jsonl"))]
 commits = subprocess.run(["git", "-C", "/repo", "log", "--format=%h %s"], capture_output=True, text=True).stdout.splitlines()
 hook_commits = [c.split()[0] for c in commits if c.split(" ", 1)[1].startswith("verif-hook:")]
+# coordinator-owned allowlist: a property is claimed only after its check was validated on the
+# unchanged tree (exit 0 in both tiers, evidence valid) and against mutations
+validated = set(open(os.path.join(V, "checks", "validated.txt")).read().split())
 checks, na = [], []
 for p in props:
     r = REG.get(p["id"])
-    if r and r.get("claimed"):
+    if r and r.get("claimed") and p["id"] in validated:
         checks.append({
             "property_id": p["id"],
             "quick_cmd": "./check %s --tier quick" % p["id"],
